@@ -11,6 +11,8 @@ open AbtemVerif AbtemVerif.Proto AbtemVerif.Grid
      init <dims> <endpoint list> <locks> <extent val> <gpts val> <sampling val>  -> ok <grid> | err <kind>
      recip <grid>                         -> ok <rats> | err <kind>
      check <grid> <grid>                  -> ok | err <kind>
+     match <grid self> <grid other> <check_match T|F> <c1 T|F> <c3 T|F>   -> <grid self'> <grid other'> ok|err:<kind>
+                                           (c1, c3: numpy's float32 comparisons of extents / samplings, inputs of the model)
 -/
 
 def val? (s : String) : Option Val :=
@@ -87,6 +89,12 @@ def handle : List String → String
       | .ok _ => "ok"
       | .error e => "err " ++ e
     | _, _ => "bad-op"
+  | ["match", d, ep, ex, gp, sa, lk, d2, ep2, ex2, gp2, sa2, lk2, ck, c1, c3] =>
+    match grid? [d, ep, ex, gp, sa, lk], grid? [d2, ep2, ex2, gp2, sa2, lk2], parseBool? ck, parseBool? c1, parseBool? c3 with
+    | some g, some o, some ck, some c1, some c3 =>
+      let r := matchGrids g o ck c1 c3
+      showGrid r.1.1 ++ " " ++ showGrid r.1.2 ++ " " ++ outcome r.2
+    | _, _, _, _, _ => "bad-op"
   | _ => "bad-op"
 
 def main : IO Unit := serve handle
